@@ -91,6 +91,7 @@ func cmdCheck(args []string) int {
 	logq := fs.String("log-queries", "", "write SMT transcripts to this prefix")
 	noEvidence := fs.Bool("no-evidence", false, "do not write the evidence file")
 	verbose := fs.Bool("v", false, "verbose")
+	budgetFlag := fs.Int("budget", 0, "override the time budget (seconds)")
 	if len(args) < 1 {
 		fmt.Fprintln(os.Stderr, "usage: gosym check <ID> [flags]")
 		return 2
@@ -143,6 +144,9 @@ func cmdCheck(args []string) int {
 	if spec.Timeout != nil {
 		budget = spec.Timeout[*tier]
 	}
+	if *budgetFlag > 0 {
+		budget = *budgetFlag
+	}
 	if budget == 0 {
 		if cfg.tier == 0 {
 			budget = 240
@@ -160,7 +164,7 @@ func cmdCheck(args []string) int {
 	overlays := map[string]map[string][]byte{}
 	harnessPart := map[string]*checkSpec{}
 	nh := 0
-	for pi, part := range parts {
+	for _, part := range parts {
 		tl := time.Now()
 		overlay, err := buildOverlay(repoDir, verifDir, part)
 		if err != nil {
@@ -192,16 +196,14 @@ func cmdCheck(args []string) int {
 		}
 		sort.Slice(hs, func(i, j int) bool { return hs[i].Name() < hs[j].Name() })
 		nh += len(hs)
-		for i, h := range hs {
+		for _, h := range hs {
 			harnessPart[h.Name()] = part
 			res := newResults()
-			remain := time.Until(deadlineAll)
-			// split the remaining budget over the remaining harnesses (of this part) and parts
-			per := remain / time.Duration((len(hs)-i)+(len(parts)-pi-1)*2)
-			if per < 5*time.Second {
-				per = 5 * time.Second
+			// every harness may use what is left of the check's budget
+			cfg.deadline = deadlineAll
+			if time.Until(deadlineAll) < 3*time.Second {
+				cfg.deadline = time.Now().Add(3 * time.Second)
 			}
-			cfg.deadline = time.Now().Add(per)
 			th0 := time.Now()
 			timedOut, stats, err := explore(w, h, res)
 			if err != nil {
